@@ -2,9 +2,9 @@ SPECIFICATION Spec
 CONSTANTS
   MaxBlocks = 3
   MaxReqs = 1
-  Templates = {"o23", "jmp", "jcc", "call", "ret"}
-  PatchKinds = {"plain2", "loop", "fwd", "ret", "jmpsym", "callsym"}
-  FnLayouts = {"none", "one", "split"}
+  Templates = {"o23", "call", "ret", "ret1"}
+  PatchKinds = {"callsym", "callret", "plain2"}
+  FnLayouts = {"split", "each"}
   EndSyms = {FALSE}
   NoSyms = {FALSE}
   AnnModes = {"none"}
@@ -20,7 +20,7 @@ CONSTANTS
   Retargets = {FALSE}
   AlignOpts = {0}
   Aliases = {FALSE}
-  SharedRet = {FALSE, TRUE}
+  SharedRet = {TRUE}
   InsFns = {"none"}
   Emit = TRUE
 INVARIANT Inv
